@@ -210,6 +210,7 @@ func famClose(w *World) {
 	// the history-based rules are judged once traffic has ceased: an answer still queued behind
 	// other frames on a slow link is an answer
 	w.QuiesceStarted = true
+	w.stopLags()
 	for _, l := range w.Net.Links {
 		l.Heal()
 	}
